@@ -294,6 +294,12 @@ parse_next_record_header:
                     len,
                     alertLevel,
                     alertDescription);
+            if (rc == MATRIXSSL_ERROR)
+            {
+                /* Alert body shorter than level + description. */
+                ssl->err = SSL_ALERT_DECODE_ERROR;
+                goto encodeResponse;
+            }
             *in = pb.buf.start;
             return rc;
         }
@@ -525,6 +531,12 @@ parse_next_record_header:
                 len,
                 alertLevel,
                 alertDescription);
+        if (rc == MATRIXSSL_ERROR)
+        {
+            /* Alert body shorter than level + description. */
+            ssl->err = SSL_ALERT_DECODE_ERROR;
+            goto encodeResponse;
+        }
         *in = pb.buf.start;
         return rc;
     }
